@@ -1,5 +1,6 @@
 """C02 — on-disk format is self-describing."""
 import ast
+from ..pathcond import inline, canon, find_defs, runs_under
 import re
 
 from ..rules import must_precede, must_follow
@@ -147,16 +148,20 @@ def d1_keys(ctx):
     # readers use a subset
     rk = None
     rdr = ctx.repo.func('Array._read_arraydescr')
-    for v, _ in defs_of(rdr.node, 'requiredkeys'):
-        try:
-            rk = set(const_eval(v, {}))
-        except ValueError:
-            pass
+    # the value handed to the JSON reader as `requiredkeys=` (keyword of the public DataDir API), local inlined
+    for n in own_nodes(rdr.node):
+        if isinstance(n, ast.Call):
+            a = get_arg(n, None, 'requiredkeys')
+            if a is not None:
+                try:
+                    rk = set(const_eval(inline(rdr, a), {}))
+                except (ValueError, TypeError):
+                    pass
     ctx.decide(rk is not None and rk <= KEYS, 'R-TABLE', 'D1', rdr, None, 'required-subset',
                f'the reader requires a subset of the written keys ({sorted(rk) if rk else rk})', detail='reader requires a key that is never written')
     td = ctx.repo.func('numtype.arrayinfotodtype')
     used = {n.slice.value for n in own_nodes(td.node) if isinstance(n, ast.Subscript) and isinstance(n.slice, ast.Constant)
-            and isinstance(n.slice.value, str) and norm(n.value) == 'arrayinfo'}
+            and isinstance(n.slice.value, str) and norm(n.value) == td.params[0]}
     ctx.decide(used <= KEYS and {'numtype', 'byteorder'} <= used, 'R-TABLE', 'D1', td, None, 'dtype-keys',
                f'arrayinfotodtype reads {sorted(used)} (written keys)', detail='dtype reconstruction reads keys that are not written')
     # shape written: list(firstchunk.shape) with [0] = accumulated length
@@ -263,21 +268,30 @@ def d5_tables(ctx):
     ctx.decide(kv.get('shape') == f'{p}.shape', 'R-TABLE', 'D5', nt, None, 'shape-is-shape', 'shape is ndarray.shape',
                detail=f"shape = {kv.get('shape')}")
     td = ctx.repo.func('numtype.arrayinfotodtype')
-    tab = None
+    tab = key = None
+    p0 = td.params[0]
     for n in own_nodes(td.node):
         if isinstance(n, ast.Subscript) and isinstance(n.value, ast.Dict):
             try:
                 tab = ast.literal_eval(n.value)
-                key = norm(n.slice)
+                key = canon(td, n.slice)
             except Exception:
                 pass
-    ctx.decide(tab == {'big': '>', 'little': '<'} and key == 'byteorder', 'R-TABLE', 'D5', td, None, 'byteorder-inverse-table',
-               "arrayinfotodtype maps {'little': '<', 'big': '>'} (inverse of the writer's labels)",
-               detail=f'table is {tab}')
+    ctx.decide(tab == {'big': '>', 'little': '<'} and key == f"{p0}['byteorder']", 'R-TABLE', 'D5', td, None, 'byteorder-inverse-table',
+               "arrayinfotodtype maps {'little': '<', 'big': '>'} (inverse of the writer's labels), indexed by the stored byteorder",
+               detail=f'table is {tab}, indexed by {key}')
     ret = [n for n in own_nodes(td.node) if isinstance(n, ast.Return)]
-    ok = bool(ret) and re.sub(r'\s', '', norm(ret[-1].value)) == 'np.dtype(numtype).newbyteorder(endianness).str'
+    # locals inlined: the result is np.dtype(<stored numtype>).newbyteorder(<table>[<stored byteorder>]).str
+    rv = inline(td, ret[-1].value) if ret else None
+    ok = False
+    if isinstance(rv, ast.Attribute) and rv.attr == 'str' and isinstance(rv.value, ast.Call) and \
+            isinstance(rv.value.func, ast.Attribute) and rv.value.func.attr == 'newbyteorder' and len(rv.value.args) == 1:
+        base, bo = rv.value.func.value, rv.value.args[0]
+        ok = isinstance(base, ast.Call) and dotted(base.func) in ('np.dtype', 'numpy.dtype') and len(base.args) == 1 and \
+            norm(base.args[0]) == f"{p0}['numtype']" and isinstance(bo, ast.Subscript) and isinstance(bo.value, ast.Dict) and \
+            norm(bo.slice) == f"{p0}['byteorder']"
     ctx.decide(ok, 'R-TABLE', 'D5', td, ret[-1] if ret else None, 'dtype-reconstruction',
-               'the dtype is rebuilt as np.dtype(numtype).newbyteorder(<table value>)', detail=f'{norm(ret[-1].value) if ret else None}')
+               'the dtype is rebuilt as np.dtype(<stored numtype>).newbyteorder(<table>[<stored byteorder>]).str', detail=f'{norm(rv) if rv is not None else None}')
     # names
     m = ctx.repo.module('numtype')
     names = m.consts.get('numtypesdescr')
